@@ -77,7 +77,7 @@ func evalHdrBlock(c CaseHdrBlock) Result {
 	nt := false
 	for i, h := range c.Hdrs {
 		t := refHdrType(h.Name)
-		flags.Set(t)
+		flags |= 1 << t
 		if _, okk := first[t]; !okk {
 			first[t] = i
 		}
@@ -104,6 +104,52 @@ func evalHdrBlock(c CaseHdrBlock) Result {
 	}
 	if hl.PFlags != flags {
 		return viol("PFlags = %#x, the set of types in the block is %#x\nblock=%s", uint(hl.PFlags), uint(flags), B(buf))
+	}
+	// the exported accessors and constants of the flag set say the same thing
+	for t, f := range map[sipsp.HdrT]sipsp.HdrFlags{sipsp.HdrFrom: sipsp.HdrFromF, sipsp.HdrTo: sipsp.HdrToF, sipsp.HdrCallID: sipsp.HdrCallIDF,
+		sipsp.HdrCSeq: sipsp.HdrCSeqF, sipsp.HdrVia: sipsp.HdrViaF, sipsp.HdrMaxFwd: sipsp.HdrMaxFwdF, sipsp.HdrCLen: sipsp.HdrCLenF,
+		sipsp.HdrContact: sipsp.HdrContactF, sipsp.HdrExpires: sipsp.HdrExpiresF, sipsp.HdrUA: sipsp.HdrUAF, sipsp.HdrRecordRoute: sipsp.HdrRecordRouteF,
+		sipsp.HdrRoute: sipsp.HdrRouteF, sipsp.HdrPAI: sipsp.HdrPAIF, sipsp.HdrOther: sipsp.HdrOtherF} {
+		if (hl.PFlags&f != 0) != (flags&(1<<t) != 0) || f == 0 {
+			return viol("PFlags %#x tested with the exported flag constant of %v (%#x) disagrees with the types seen (%#x)\nblock=%s", uint(hl.PFlags), t, uint(f), uint(flags), B(buf))
+		}
+	}
+	{
+		var present, absent []sipsp.HdrT
+		for t := sipsp.HdrT(1); t <= sipsp.HdrOther; t++ {
+			in := flags&(1<<t) != 0
+			if hl.PFlags.Test(t) != in {
+				return viol("PFlags.Test(%v) = %v, the block %s such a header\nblock=%s", t, !in, map[bool]string{true: "has", false: "has no"}[in], B(buf))
+			}
+			if in {
+				present = append(present, t)
+			} else {
+				absent = append(absent, t)
+			}
+		}
+		if !hl.PFlags.AllSet(present...) || hl.PFlags.Any(absent...) || (len(present) > 0 && !hl.PFlags.Any(present[len(present)-1])) ||
+			(len(absent) > 0 && hl.PFlags.AllSet(append(append([]sipsp.HdrT{}, present...), absent[0])...)) ||
+			(len(present) > 0 && len(absent) > 0 && !hl.PFlags.Any(absent[0], present[0])) {
+			return viol("PFlags %#x: AllSet(present)=%v Any(absent)=%v are inconsistent with the types seen %v\nblock=%s", uint(hl.PFlags), hl.PFlags.AllSet(present...), hl.PFlags.Any(absent...), present, B(buf))
+		}
+		f2 := hl.PFlags
+		if len(present) > 0 {
+			f2.Clear(present[0])
+			if f2.Test(present[0]) || f2|1<<present[0] != hl.PFlags {
+				return viol("HdrFlags.Clear(%v) on %#x gives %#x", present[0], uint(hl.PFlags), uint(f2))
+			}
+		}
+		if len(absent) > 0 {
+			f2 = hl.PFlags
+			f2.Set(absent[0])
+			if !f2.Test(absent[0]) || f2&^(1<<absent[0]) != hl.PFlags {
+				return viol("HdrFlags.Set(%v) on %#x gives %#x", absent[0], uint(hl.PFlags), uint(f2))
+			}
+		}
+		f2.Reset()
+		if f2 != 0 {
+			return viol("HdrFlags.Reset() leaves %#x", uint(f2))
+		}
 	}
 	stored := len(c.Hdrs)
 	if stored > len(hl.Hdrs) {
@@ -154,6 +200,22 @@ func evalHdrBlock(c CaseHdrBlock) Result {
 	}
 	if hl.GetHdr(sipsp.HdrNone) != nil || hl.GetHdr(sipsp.HdrOther) != nil {
 		return viol("GetHdr(none/other) must be nil")
+	}
+	// SetHdr (documented: true if added, false if a header of that type is already there or the type is invalid);
+	// done last, it modifies the first-of-type table
+	for t := sipsp.HdrNone; t <= sipsp.HdrOther+1; t++ {
+		_, have := first[t]
+		valid := t > sipsp.HdrNone && t < sipsp.HdrOther
+		nh := sipsp.Hdr{Type: t}
+		nh.Name.Set(1, 2)
+		if got := hl.SetHdr(&nh); got != (valid && !have) {
+			return viol("SetHdr(type %v) = %v; valid type: %v, a header of that type already seen: %v\nblock=%s", t, got, valid, have, B(buf))
+		}
+		if valid && !have {
+			if g := hl.GetHdr(t); g == nil || g.Type != t || g.Name.Offs != 1 || g.Name.Len != 1 {
+				return viol("GetHdr(%v) after a successful SetHdr does not return the header that was set", t)
+			}
+		}
 	}
 	return ok(nt && len(c.Hdrs) >= 2, classes...)
 }
